@@ -482,6 +482,34 @@ def gen_S_float(rng, tag, side, ao, rhs, bo, n, deficient=False):
     if rhs == "v": b = [[v for r in b for v in r]]
     return S_line(tag, side, ao, rhs, bo, n, m, a, b)
 
+
+def gen_X_cases(rng, big):
+    """the same solution through different expression forms: chained products with an unevaluated solve / inv (rewrite rules of
+    solve.hpp), and solves on a square VIEW into a larger stored matrix (leading dimension != n; CBLAS bindings)"""
+    cases = []
+    reps = 2 if not big else 8
+    for tag in TAGS:
+        for ao in "rc":
+            for bo in "rc":
+                for _ in range(reps):
+                    n = rng.choice([1, 2, 3, 4, 5, 7, 9, 12] + ([17, 24, 33] if big or rng.random() < 0.2 else []))
+                    m = rng.choice([1, 2, 3, 4]); off = rng.choice([0, 1, 2, 5])
+                    if tag in EXACT_TAGS or tag == "indef":
+                        a = gen_spd_exact(rng, n) if tag == "spd" else (gen_lu_exact(rng, n) if tag == "indef" else gen_tri_exact(rng, n, tag))
+                        t = a if tag in ("spd", "indef") else tri_of(tag, a)
+                        b = mmul(t, [[rint(rng, -3, 3) for _ in range(m)] for _ in range(n)])
+                        c = [rint(rng, -2, 2) for _ in range(m)]
+                        # right-hand side vector solvable exactly from BOTH sides only for symmetric A; use an image of t and of t^T summed? keep it simple: b1 = t x
+                        b1 = [r[0] for r in mmul(t, [[rint(rng, -3, 3)] for _ in range(n)])]
+                        kind = "chainx"
+                    else:
+                        a = gen_float(rng, n, "spd", 100.0)
+                        b = [[rng.uniform(-1, 1) for _ in range(m)] for _ in range(n)]; c = [rng.uniform(-1, 1) for _ in range(m)]
+                        b1 = [rng.uniform(-1, 1) for _ in range(n)]
+                        kind = "chainf"
+                    cases.append((kind, "X %s %s %s %d %d %d | %s | %s | %s | %s" % (tag, ao, bo, n, m, off, fl(a), fl(b), fl([c]), fl([b1]))))
+    return cases
+
 def gen_cases(rng, tier):
     big = tier == "thorough"
     small = list(range(1, 13))
@@ -586,6 +614,7 @@ def gen_cases(rng, tier):
     cases += gen_P_cases(rng, big)
     cases += gen_semi_cases(rng, big)
     cases += gen_U_cases(rng, big)
+    cases += gen_X_cases(rng, big)
     return cases
 def symm(a): return [[(a[i][j] + a[j][i]) / 2 for j in range(len(a))] for i in range(len(a))]
 
@@ -626,6 +655,32 @@ def monitor(kind, line, o):
     try: og = out_groups(o)
     except ValueError: return ["non-finite value in the result: " + o[:120]]
     exact = kind == "exact"
+    if cmd == "X":
+        tag, ao, bo, n, m, off = h[1], h[2], h[3], int(h[4]), int(h[5]), int(h[6])
+        a = mat(n, n, [num(t) for t in g[1]]); b = mat(n, m, [num(t) for t in g[2]]); cv = [num(t) for t in g[3]]; b1 = [num(t) for t in g[4]]
+        if og is None: return ["solve reported an error (%s) on a system of the documented kind" % o]
+        if len(og) != 10: return ["X: %d result groups, expected 10" % len(og)]
+        t = a if tag not in TAGS[:4] else tri_of(tag, a)
+        y1, y2, y3, y4, v1, v2, w1, w2, V1, V2 = og
+        scale = max([abs(v) for grp in og for v in grp] + [1])
+        tol = Fr(0) if (kind == "chainx") else Fr(1e-9) * scale * (10 ** 3 if tag == "cg" else 1)
+        names = ["prod(solve(A,B,left),c)", "X = solve(A,B,left) evaluated, then prod(X,c)", "(inv(A) % B) % c", "solve(A, prod(B,c), left)"]
+        for k, y in enumerate([y1, y3, y4]):
+            kk = [0, 2, 3][k]
+            e = near([y], [y2], tol, "%s differs from `%s`" % (names[kk], names[1]))
+            if e: return [e]
+        e = near([v1], [v2], tol, "solve(subrange(M,o,o+n,o,o+n), b, left) on a view into a larger matrix differs from solve(A, b, left) on a copy of the same block")
+        if e: return [e]
+        e = near([w1], [w2], tol, "solve(subrange(M,...), b, right) on a view differs from solve(A, b, right) on a copy of the same block")
+        if e: return [e]
+        e = near([V1], [V2], tol, "solve(subrange(M,...), B, left) with a matrix right-hand side on a view differs from the solve on a copy")
+        if e: return [e]
+        # defining equation of the chained form: A y = B c
+        bc = [[sum(b[i][j] * cv[j] for j in range(m))] for i in range(n)]
+        if tag != "cg":
+            e = resid_ok(t, [[v] for v in y1], bc, True, n, kind == "chainx")
+            if e: return ["prod(solve(A,B,left),c): A y = B c violated: " + e]
+        return []
     if cmd == "S":
         tag, side, ao, rhs, bo, n, m = h[1], h[2], h[3], h[4], h[5], int(h[6]), int(h[7])
         a = mat(n, n, [num(t) for t in g[1]]); bl = [num(t) for t in g[2]]
